@@ -505,6 +505,11 @@ package dsl
 //@   pure
 
 // The inverse of a change is a function of the change (interface observer used by the wrapper classes).
+// the two sides of a recorded change are fields of the change object
+//@ func dsl.TypeChange.OldType
+//@   pure
+//@ func dsl.TypeChange.NewType
+//@   pure
 //@ func dsl.TypeChange.Inverse
 //@   pure
 
@@ -829,6 +834,19 @@ package dsl
 //@ func validateEnums$1
 //@   property C09
 //@   ensures non_enums_descend: typeof(node) != *EnumDefinition ==> called("dsl.(Visitor).VisitChildren")
+
+// ---- C13 / C12: which comment lines in front of an element are its documentation. docs: a comment is documentation
+// only when no empty line separates it from the element, so of several comment blocks in front of an element the
+// documentation is the last one - the longest run of comment lines that ends at the element. What is in front of that
+// run (section banners, notes) must not reach the model, or two models that differ only in such comments generate
+// different code. `lines` aliases the array that strings.Split returned; the second loop strips the `#` in place.
+//@ func normalizeComment
+//@   property C13,C12
+//@   invariant 0: -1 <= i && i < len(lines) && (forall k in i+1..len(lines) :: hasPrefix(lines[k], "#"))
+//@   invariant 1: len(lines) <= len(lastResult(strings.Split)) && (forall k in len(lastResult(strings.Split)) - len(lines) + rangeindex + 1..len(lastResult(strings.Split)) :: hasPrefix(lastResult(strings.Split)[k], "#"))
+//@   invariant 1: len(lines) < len(lastResult(strings.Split)) ==> !hasPrefix(lastResult(strings.Split)[len(lastResult(strings.Split)) - len(lines) - 1], "#")
+//@   ensures the_documentation_is_what_is_joined: comments != "" ==> called(strings.Join) && result == lastResult(strings.Join) && lastArg(strings.Join, 1) == "\n"
+//@ observe-args strings.Join
 
 // ---- C06: the comparison core. docs/cpp/evolution.md lists what is compatible, what is compatible with a warning and
 // what is not; the functions below decide which class a pair of types or definitions falls into.
